@@ -239,7 +239,65 @@ def correspondence(ctx):
             cases.append({'assertion': 'assert_equal', 'left': i, 'right': j, 'wl': False, 'wr': False, 'kwargs': kw})
     mixes = [list(m) for k in range(1, 4) for m in itertools.product(['pass', 'fail', 'error'], repeat=k)] + \
             [list(m) for k in range(1, 4) for m in itertools.product(['pass', 'fail', 'cond_error'], repeat=k) if 'cond_error' in m]
-    res = vlib.run_impl('c07_impl.py', {'cases': cases, 'unit_tests': mixes}, timeout=1800)
+    outputs = []
+    for fn, arg in (('greet', 'Ada'), ('greet', 'Grace'), ('quiet', 'Ada')):
+        for later in ([], [['greet', 'Zed']], [['quiet', 'q'], ['greet', 'Bob']], [['quiet', 'x']]):
+            for text in ('Hello, Ada!', 'hello ada', 'Ada', 'Grace', 'Welcome.', 'Hello, Ada!\nWelcome.\n', 'Hello, Grace!\nWelcome.\n', '', 'zzz',
+                         'H.llo', '^Hello, (Ada|Bob)!$'):
+                for exact in (False, True):
+                    outputs.append({'fn': fn, 'arg': arg, 'later': later, 'text': text, 'exact': exact})
+    res = vlib.run_impl('c07_impl.py', {'cases': cases, 'unit_tests': mixes, 'outputs': outputs}, timeout=1800)
+    import re as _re
+    for rec in res.get('outputs', []):
+        sp, out_text, v = rec['spec'], rec['plain_output'], rec['verdicts']
+        # the printed text as the assertions see it: without its final line break (chomp)
+        out_text = out_text[:-1] if out_text.endswith('\n') else out_text
+        ctx.case(('output', json.dumps(sp, sort_keys=True)), nontrivial=bool(out_text))
+        ctx.count('output-assertions:' + ('stale-result' if sp['later'] else 'most-recent'))
+
+        def fired(key):
+            r = v[key]
+            return None if 'raised' in r else r['fired']
+        problems = []
+        for name in ('assert_output', 'assert_not_output', 'assert_output_contains', 'assert_not_output_contains', 'assert_output_regex',
+                     'assert_not_output_regex'):
+            a, b = fired(name + ':inline'), fired(name + ':stale')
+            if 'raised' in v[name + ':inline'] or 'raised' in v[name + ':stale']:
+                if not (name.endswith('regex') and sp['text'] == ''):
+                    try:
+                        _re.compile(sp['text'])
+                        problems.append(('output-assertion-raises', '%s raised %s' % (name, v[name + ':inline'].get('raised') or v[name + ':stale'].get('raised'))))
+                    except _re.error:
+                        pass
+                continue
+            if a != b:
+                problems.append(('output-of-another-execution', '%s on the result of %s(%r): fired=%s right after the call, fired=%s once %s had been called '
+                                 'in between - the same execution printed the same text' % (name, sp['fn'], sp['arg'], a, b, sp['later'])))
+        # exact oracles where the documentation leaves no room: containment and regex search on the printed text
+        want = sp['text'] in out_text if sp['exact'] else sp['text'].lower() in out_text.lower()
+        for mode in ('inline', 'stale'):
+            c, nc = fired('assert_output_contains:' + mode), fired('assert_not_output_contains:' + mode)
+            if c is not None and c != (not want):
+                problems.append(('output-contains', 'assert_output_contains(%s(%r), %r, exact_strings=%s) [%s]: fired=%s, the text is %sin %r'
+                                 % (sp['fn'], sp['arg'], sp['text'], sp['exact'], mode, c, '' if want else 'not ', out_text)))
+            if nc is not None and nc != want:
+                problems.append(('output-contains', 'assert_not_output_contains(...%r) [%s]: fired=%s, contained=%s' % (sp['text'], mode, nc, want)))
+            try:
+                rx = _re.search(sp['text'], out_text) is not None
+                r1, r2 = fired('assert_output_regex:' + mode), fired('assert_not_output_regex:' + mode)
+                if r1 is not None and r1 != (not rx):
+                    problems.append(('output-regex', 'assert_output_regex(%r, %s(%r)) [%s]: fired=%s, re.search is %s on %r' % (sp['text'], sp['fn'], sp['arg'], mode, r1, rx, out_text)))
+                if r2 is not None and r2 != rx:
+                    problems.append(('output-regex', 'assert_not_output_regex(%r, ...) [%s]: fired=%s, re.search is %s' % (sp['text'], mode, r2, rx)))
+            except _re.error:
+                pass
+            o, no = fired('assert_output:' + mode), fired('assert_not_output:' + mode)
+            if o is not None and no is not None and o == no:
+                problems.append(('output-negation-pair', 'assert_output and assert_not_output both %s for %r vs %r [%s]' % ('fire' if o else 'pass', sp['text'], out_text, mode)))
+            if sp['exact'] and o is not None and sp['text'] == out_text and o:
+                problems.append(('output-exact', 'assert_output fired although the text IS the output %r [%s]' % (out_text, mode)))
+        for key, why in problems[:2]:
+            ctx.violation(key, {'spec': sp, 'plain_output': out_text, 'verdicts': v, 'why': why})
     by = {}
     for case, r in zip(cases, res['results']):
         name = case['assertion']
